@@ -553,10 +553,17 @@ impl<'a> Run<'a> {
 					let lhs = fee as u128 * prev.weight as u128 * 100;
 					let rhs = prev.fee as u128 * weight as u128 * 98;
 					if lhs < rhs {
+						// listed root cause seen from another side: the remainder of a split aggregated claim inherits the
+						// aggregate's feerate; when its own value cannot pay that feerate the library (after having
+						// logged the bump refusal) re-issues it with the output floored at the dust limit, i.e. at a
+						// lower effective feerate than the aggregate paid
+						let remainder = inputs.len() < prev.inputs.len() && inputs.iter().all(|i| prev.inputs.contains(i));
+						let key = if remainder && self.bump_refusal_logged(node) { "claim-feerate-decreased/split-remainder-cannot-sustain-inherited-feerate" } else { "claim-feerate-decreased" };
 						return Err(fail(
 							"claim-feerate-decreased",
 							format!("node {} re-issued its claim of {} as {} paying {} sat / {} wu after {} paying {} sat / {} wu", node, op, txid, fee, weight, prev.txid, prev.fee, prev.weight),
-						));
+						)
+						.with_key(key));
 					}
 					if prev.inputs == inputs && (fee as u128) * 100 < (prev.fee as u128) * 98 {
 						return Err(fail("claim-fee-decreased", format!("node {} re-issued its claim of {:?} as {} paying {} sat after {} paying {} sat", node, inputs, txid, fee, prev.txid, prev.fee)));
@@ -808,13 +815,16 @@ impl<'a> Run<'a> {
 				// inbound HTLC whose preimage the monitor was given: a valid claim must be out
 				if self.preimage_known.contains_key(&(h.receiver, cl.chan, h.hash)) && !self.node_has_mempool_spend(h.receiver, &op) {
 					let refused = self.last_refused_spend(h.receiver, &op);
-					let why = match &refused {
-						Some((_, Reject::AlreadySpent(o, _))) if *o != op => "claim-aggregated-with-spent-output".to_string(),
-						Some((_, r)) => format!("claim-refused-{}", reject_kind(r)),
-						// same listed root cause when the aggregate was split before any refused broadcast of it was
-						// seen: the node logged that it cannot bump the remainder below the dust limit and issued nothing
-						None if self.bump_refusal_logged(h.receiver) => "claim-aggregated-with-spent-output".to_string(),
-						None => "no-claim".to_string(),
+					let why = if self.bump_refusal_logged(h.receiver) {
+						// listed root cause: the node logged that it cannot bump the remainder of a split claim below the dust
+						// limit and issues nothing for it any more
+						"claim-aggregated-with-spent-output".to_string()
+					} else {
+						match &refused {
+							Some((_, Reject::AlreadySpent(o, _))) if *o != op => "claim-spends-already-spent-output".to_string(),
+							Some((_, r)) => format!("claim-refused-{}", reject_kind(r)),
+							None => "no-claim".to_string(),
+						}
 					};
 					return Err(fail(
 						"inbound-htlc-not-claimed",
@@ -825,13 +835,16 @@ impl<'a> Run<'a> {
 				// outbound HTLC: from its expiry on (a transaction with nLockTime = expiry is final in block expiry+1)
 				if height >= h.cltv && !self.node_has_mempool_spend(h.offerer, &op) {
 					let refused = self.last_refused_spend(h.offerer, &op);
-					let why = match &refused {
-						Some((_, Reject::AlreadySpent(o, _))) if *o != op => "claim-aggregated-with-spent-output".to_string(),
-						Some((_, r)) => format!("claim-refused-{}", reject_kind(r)),
-						// same listed root cause when the aggregate was split before any refused broadcast of it was
-						// seen: the node logged that it cannot bump the remainder below the dust limit and issued nothing
-						None if self.bump_refusal_logged(h.offerer) => "claim-aggregated-with-spent-output".to_string(),
-						None => "no-claim".to_string(),
+					let why = if self.bump_refusal_logged(h.offerer) {
+						// listed root cause: the node logged that it cannot bump the remainder of a split claim below the dust
+						// limit and issues nothing for it any more
+						"claim-aggregated-with-spent-output".to_string()
+					} else {
+						match &refused {
+							Some((_, Reject::AlreadySpent(o, _))) if *o != op => "claim-spends-already-spent-output".to_string(),
+							Some((_, r)) => format!("claim-refused-{}", reject_kind(r)),
+							None => "no-claim".to_string(),
+						}
 					};
 					return Err(fail(
 						"outbound-htlc-not-timed-out",
@@ -1234,13 +1247,16 @@ impl<'a> Run<'a> {
 				let Some((stx, x, by)) = self.spender(&op) else {
 					// whoever could claim it (the offerer after expiry at the latest) did not
 					let refused = self.last_refused_spend(h.offerer, &op);
-					let why = match &refused {
-						Some((_, Reject::AlreadySpent(o, _))) if *o != op => "claim-aggregated-with-spent-output".to_string(),
-						Some((_, r)) => format!("claim-refused-{}", reject_kind(r)),
-						// same listed root cause when the aggregate was split before any refused broadcast of it was
-						// seen: the node logged that it cannot bump the remainder below the dust limit and issued nothing
-						None if self.bump_refusal_logged(h.offerer) => "claim-aggregated-with-spent-output".to_string(),
-						None => "no-claim".to_string(),
+					let why = if self.bump_refusal_logged(h.offerer) {
+						// listed root cause: the node logged that it cannot bump the remainder of a split claim below the dust
+						// limit and issues nothing for it any more
+						"claim-aggregated-with-spent-output".to_string()
+					} else {
+						match &refused {
+							Some((_, Reject::AlreadySpent(o, _))) if *o != op => "claim-spends-already-spent-output".to_string(),
+							Some((_, r)) => format!("claim-refused-{}", reject_kind(r)),
+							None => "no-claim".to_string(),
+						}
 					};
 					let f = fail("htlc-output-unclaimed", format!("chan {}: HTLC output {} ({} sat, expiry {}, offered by node {}) was never claimed by anyone (last refused attempt of the offerer: {:?})", cl.chan, op, h.sat(), h.cltv, h.offerer, refused))
 						.with_key(format!("htlc-output-unclaimed/{}/{}", if h.offerer == cl.b { "holder" } else { "counterparty" }, why));
